@@ -180,6 +180,7 @@ libNew(FileName fname, Bool rdOnly, FILE *f, Offset pos)
 	lib->arent	= NULL;
 	lib->rdOnly	= rdOnly;
 	lib->intLoaded	= false;
+	lib->isOutput	= false;
 	lib->idName	= NULL;
 	lib->file	= f;
 	lib->offset	= pos;
@@ -232,7 +233,9 @@ libRead(FileName fname)
 Lib
 libWrite(FileName fname)
 {
-	return libNew(fname, false, fileWubOpen(fname), (Offset) 0);
+	Lib lib = libNew(fname, false, fileWubOpen(fname), (Offset) 0);
+	lib->isOutput = true;
+	return lib;
 }
 
 /*
@@ -335,7 +338,10 @@ libClose(Lib lib)
 	else
 		libPutHeader(lib);
 
-	if (!(lib->rdOnly & 2)) fclose(lib->file);	
+	if (lib->isOutput)
+		fileClose(lib->file, lib->name);
+	else if (!(lib->rdOnly & 2))
+		fclose(lib->file);
 	libUnRegister(lib);
 	fnameFree(lib->name);
 
